@@ -26,6 +26,8 @@ def jobs(tier):
         J.append(Job("c10", "mpsc", "1,1,0,0", {"api": api, "ndeq": 2}))
     for api in (0, 3):
         J.append(Job("c10", "mpmc", "2,0,0,0", {"api": api}))
+    J.append(Job("c10", "splice_src", "2,0,0,0" if q else "3,0,0,0", {"api": 0}, workers=8))
+    J.append(Job("c10", "splice_src", "1,1,0,0" if q else "2,1,0,0", {"api": 0}, workers=8))
     J.append(Job("c10", "legacy", "2,0,0,0"))
     J.append(Job("c10", "legacy", "1,1,0,0"))
     for api in (0, 1, 2, 3):     # deeper TSO budgets for the paths that end in a plain store
